@@ -406,6 +406,10 @@ def check(ctx, rep):
     # the second run must look at the same selection as the first: files taken from the detector's findings instead of the selected paths
     # are rewritten once the first run has emptied the prefilter (the detector then scans the whole directory)
     rule_fileset_source(ctx, rep)
+    from .c16 import rule_args_info_fresh
+
+    # sites skipped because a shared specification was consumed are fixed by the *second* run: not a fixed point
+    rule_args_info_fresh(ctx, rep)
     rep.not_covered += [
         "fixed point for arbitrary programs and for codemods without a rule of their own (beyond the table rule)",
         "codemods listed as not-modelled: " + ", ".join(sorted(NOT_MODELLED)),
